@@ -138,6 +138,9 @@ func (t *lpTr) exprAs(e ast.Expr, want types.Type, b *lpBinds) string {
 func (t *lpTr) extMethodCall(c *ast.CallExpr, f *ast.SelectorExpr, callee *types.Func, b *lpBinds, want bool) string {
 	sig := callee.Type().(*types.Signature)
 	rt := sig.Recv().Type()
+	if s, ok := t.marshalPtrCall(c, f, callee, b, want); ok { // loops_marshal.go: read-only method of a pointer receiver
+		return s
+	}
 	if _, isPtr := rt.(*types.Pointer); isPtr {
 		t.refuse(c, "pointer-receiver method call %s outside the supported statement forms", nodeText(c.Fun))
 	}
@@ -291,16 +294,21 @@ func (t *lpTr) errValue(e ast.Expr, b *lpBinds) string {
 
 // evaluate an argument only for the panics it can raise (the value is not used)
 func (t *lpTr) evalForPanic(a ast.Expr, b *lpBinds) {
+	if t.marshalEvalForPanic(a, b) { // loops_marshal.go: x.String() of a standard-library type
+		return
+	}
 	ty := t.info.TypeOf(a)
 	if ty != nil && t.leanTy(ty) != "" && t.leanTy(ty) != "GLine" {
 		t.expr(a, b)
 		return
 	}
-	// method values like x.String() on supported receivers are not needed so far
 	t.refuse(a, "argument %s of an error constructor", nodeText(a))
 }
 
 func (t *lpTr) extReturn(x *ast.ReturnStmt, ind int, j *lpJump) ([]string, bool) {
+	if ls, ok := t.marshalReturn(x, ind, j); ok { // loops_marshal.go: `return f(…)` of a call with the same results
+		return ls, true
+	}
 	fn := t.fn
 	sig := t.info.Defs[t.fd.Name].(*types.Func).Type().(*types.Signature)
 	if !fn.errRes {
